@@ -2,7 +2,7 @@
 //! addressing walk (see `vh::cfgwalk`).  stdin: one JSON object per line
 //!   {"toml": "...", "admin": ["SHOW DATABASES", ..]?, "probe": {...}?, "show": bool?}
 //!   {"op": "regex", "patterns": ["..", ..]}      -> {"ok": [bool, ..]}   (regex crate verdicts)
-//!   {"op": "tls", "paths": ["..", ..]}           -> {"certs": [bool..], "keys": [bool..]}  (load_certs / load_keys verdicts)
+//!   {"op": "tls", "paths": ["..", ..]}           -> {"certs": [n..], "keys": [n..]}  (items load_certs / load_keys return, -1 = Err)
 //! stdout: one JSON object per line.  argv[1]: directory for the temporary config file.
 use serde_json::{json, Value};
 use std::io::{BufRead, Write};
@@ -42,10 +42,12 @@ fn main() {
             json!({"ok": oks})
         } else if case.get("op").and_then(|x| x.as_str()) == Some("tls") {
             // the verdicts of the real loaders on files (file system and rustls_pemfile are environment)
-            let f = |k: &str, cert: bool| -> Vec<bool> {
+            // -1 = the loader answers Err, otherwise the number of items it returns
+            let f = |k: &str, cert: bool| -> Vec<i64> {
                 case[k].as_array().map(|a| a.iter().map(|p| {
                     let p = std::path::Path::new(p.as_str().unwrap_or(""));
-                    if cert { pgcat::tls::load_certs(p).is_ok() } else { pgcat::tls::load_keys(p).is_ok() }
+                    if cert { pgcat::tls::load_certs(p).map(|v| v.len() as i64).unwrap_or(-1) }
+                    else { pgcat::tls::load_keys(p).map(|v| v.len() as i64).unwrap_or(-1) }
                 }).collect()).unwrap_or_default()
             };
             json!({"certs": f("paths", true), "keys": f("paths", false)})
